@@ -9,6 +9,7 @@ import JubakoModel.Model.Search
 import JubakoModel.Lemmas.Search
 import JubakoModel.Lemmas.Order
 import JubakoModel.Lemmas.DirFile
+import JubakoModel.Lemmas.Funcs
 
 namespace Jubako
 
@@ -129,5 +130,22 @@ theorem c03_file_sorted_readback (H : Bytes → Bytes) (vendor uuid freeData : B
 
 /-- non-vacuity: `DirFileExample.input3`, a store sorted on an array key with duplicates -/
 example := @DirFileExample.input3
+
+/-! ### Tie to the source: the search these theorems are about is the body of `RangeTrait::find` -/
+
+/-- **`RangeTrait::find`, translated from `reader/directory_pack/range.rs` on every run
+    (`Generated.rangeFind`), terminates for every comparator and every window, and is the model's
+    `findOrdered` (when the comparator declares the range ordered) / `findLinear` (otherwise) on the
+    comparator shifted by the window's offset** — so `c03_find_binary`, `c03_find_linear` and
+    `c03_find_agree` speak about the loop that is in the source now. -/
+theorem c03_find_is_source_find (cmpAt : Nat → Ordering) (ordered : Bool) (off count : Nat) :
+    Generated.rangeFind cmpAt ordered off count =
+      some (if ordered then findOrdered (fun i => cmpAt (off + i)) count
+            else findLinear (fun i => cmpAt (off + i)) count) :=
+  gen_rangeFind cmpAt ordered off count
+
+/-- non-vacuity: the translated search on a three-entry window at offset 2 finds the middle entry in both modes -/
+example : Generated.rangeFind (fun i => compare i 3) true 2 3 = some (some 1) ∧
+          Generated.rangeFind (fun i => compare i 3) false 2 3 = some (some 1) := by decide
 
 end Jubako
